@@ -25,9 +25,9 @@ Proof.
   destruct (hooked _); [|reflexivity]. destruct (apply_effs _ _); reflexivity.
 Qed.
 
-Lemma gen_hook_acc c f log :
-  gen_hook cf o c f log =
-  (fst (fst (gen_hook cf o c f [])), snd (fst (gen_hook cf o c f [])) ++ log, snd (gen_hook cf o c f [])).
+Lemma gen_hook_acc c f cx log :
+  gen_hook cf o c f cx log =
+  (fst (fst (gen_hook cf o c f cx [])), snd (fst (gen_hook cf o c f cx [])) ++ log, snd (gen_hook cf o c f cx [])).
 Proof. unfold gen_hook. destruct (greg _ _); reflexivity. Qed.
 
 Lemma unwrap_step_acc c log :
@@ -35,7 +35,7 @@ Lemma unwrap_step_acc c log :
 Proof.
   unfold unwrap1, unwrap_step. destruct (gcm _).
   - unfold gcm_unwrap. destruct (greg _ _); [|reflexivity].
-    destruct (inner c) as [[|f fr]|].
+    destruct (inner c) as [[|[f cx] fr]|].
     + reflexivity.
     + apply gen_hook_acc.
     + destruct (gframes _); [reflexivity|apply gen_hook_acc].
@@ -48,14 +48,14 @@ Proof.
   destruct (hooked _); [|simpl; lia]. destruct (apply_effs _ _); simpl; lia.
 Qed.
 
-Lemma gen_hook_len c f : length (snd (fst (gen_hook cf o c f []))) <= 1.
+Lemma gen_hook_len c f cx : length (snd (fst (gen_hook cf o c f cx []))) <= 1.
 Proof. unfold gen_hook. destruct (greg _ _); simpl; lia. Qed.
 
 Lemma unwrap1_len c : length (snd (fst (unwrap1 c))) <= 1.
 Proof.
   unfold unwrap1, unwrap_step. destruct (gcm _).
   - unfold gcm_unwrap. destruct (greg _ _); [|simpl; lia].
-    destruct (inner c) as [[|f fr]|]; [simpl; lia|apply gen_hook_len|].
+    destruct (inner c) as [[|[f cx] fr]|]; [simpl; lia|apply gen_hook_len|].
     destruct (gframes _); [simpl; lia|apply gen_hook_len].
   - destruct (hooked _); simpl; lia.
 Qed.
@@ -64,17 +64,17 @@ Lemma rev_short {A} (l : list A) : length l <= 1 -> rev l = l.
 Proof. destruct l as [|x [|y l]]; simpl; auto; lia. Qed.
 
 (* a hook result URaise always comes with the exception *)
-Lemma gen_hook_raise c f l w : gen_hook cf o c f [] = (URaise, l, w) -> w <> None.
+Lemma gen_hook_raise c f cx l w : gen_hook cf o c f cx [] = (URaise, l, w) -> w <> None.
 Proof.
   unfold gen_hook. destruct (greg _ _) as [r|]; [|discriminate].
-  destruct r; intros E; inversion E; discriminate.
+  destruct (gverdict _ _ _ _); intros E; inversion E; discriminate.
 Qed.
 
 Lemma unwrap1_raise c l w : unwrap1 c = (URaise, l, w) -> w <> None.
 Proof.
   unfold unwrap1, unwrap_step. destruct (gcm _).
   - unfold gcm_unwrap. destruct (greg _ _); [|discriminate].
-    destruct (inner c) as [[|f fr]|]; [discriminate|apply gen_hook_raise|].
+    destruct (inner c) as [[|[f cx] fr]|]; [discriminate|apply gen_hook_raise|].
     destruct (gframes _); [discriminate|apply gen_hook_raise].
   - destruct (hooked _); [|discriminate]. destruct (unwrapt _ _); intros E; inversion E; discriminate.
 Qed.
@@ -592,7 +592,7 @@ Proof. intros R. rewrite fill_loopF; simpl. destruct o; auto. rewrite R; auto. Q
 
 (* every hook call sees the options in force, (True, False) if none were *)
 Definition ev_opts (e : ev) : opts :=
-  match e with VElab _ x | VUnwrap _ x | VGen _ _ _ x => x end.
+  match e with VElab _ x | VUnwrap _ x | VGen _ _ _ _ x => x end.
 
 Lemma elab1_opts cf o c : Forall (fun e => ev_opts e = o) (snd (fst (elab1 cf o c))).
 Proof.
@@ -602,11 +602,11 @@ Qed.
 
 Lemma unwrap1_opts cf o c : Forall (fun e => ev_opts e = o) (snd (fst (unwrap1 cf o c))).
 Proof.
-  assert (G : forall f, Forall (fun e => ev_opts e = o) (snd (fst (gen_hook cf o c f [])))).
-  { intros f. unfold gen_hook. destruct (greg _ _); simpl; auto. }
+  assert (G : forall f cx, Forall (fun e => ev_opts e = o) (snd (fst (gen_hook cf o c f cx [])))).
+  { intros f cx. unfold gen_hook. destruct (greg _ _); simpl; auto. }
   unfold unwrap1, unwrap_step. destruct (gcm _).
   - unfold gcm_unwrap. destruct (greg _ _); simpl; auto.
-    destruct (inner c) as [[|f fr]|]; simpl; auto. destruct (gframes _); simpl; auto.
+    destruct (inner c) as [[|[f cx] fr]|]; simpl; auto. destruct (gframes _); simpl; auto.
   - destruct (hooked _); simpl; auto.
 Qed.
 
@@ -630,38 +630,50 @@ Proof. rewrite fill_loopF; simpl. apply loopF_opts. Qed.
 (* ------------------------------------------------------------------ 3e. generator-based managers *)
 
 (* The two lookup paths agree.  When the loop elaborates a generator-based manager m whose
-   code is registered, starting from a reset (or fresh) Context, the unwrap verdict is the one
-   of the hook registered for the code of the generator's outermost frame, called with that
-   frame -- whether the context is exiting (inner_stack stays None, the frame is obtained by
-   extract_outermost) or not (frame taken from the inner_stack just extracted); a finished
-   generator (no frames) gives None on both paths; an unregistered code gives None. *)
+   code is registered, starting from a reset (or fresh) Context, under with_contexts=True, the
+   registered hook is called with the generator's outermost frame AND with the same contexts
+   recorded on it -- whether the context is exiting (inner_stack stays None, the Frame comes
+   from extract_outermost, which always analyses contexts) or not (the Frame is
+   inner_stack.frames[0], extracted under the options in force); so the verdict, also of a hook
+   that answers from frame.contexts, does not depend on the path.  A finished generator (no
+   frames) gives None on both paths; an unregistered code gives None. *)
 Lemma gcm_paths cf o c :
-  gcm (mattrs cf (obj c)) = true -> inner c = None ->
+  gcm (mattrs cf (obj c)) = true -> inner c = None -> wc_of o = true ->
   let m := obj c in
   let c1 := fst (fst (elab1 cf o c)) in
   snd (elab1 cf o c) = false /\ snd (fst (elab1 cf o c)) = [] /\ obj c1 = m
-  /\ inner c1 = (if exiting c then None else Some (gframes (mattrs cf m)))
+  /\ inner c1 = (if exiting c then None
+                 else Some (map (fun f => (f, fctx cf f)) (gframes (mattrs cf m))))
   /\ children c1 = children c
   /\ fst (fst (unwrap1 cf o c1)) =
      match greg cf (code (mattrs cf m)), gframes (mattrs cf m) with
-     | Some _, f :: _ => match greg cf (fcode cf f) with Some r => r | None => UNone end
+     | Some _, f :: _ =>
+         match greg cf (fcode cf f) with
+         | Some r => gverdict cf (fcode cf f) (fctx cf f) r
+         | None => UNone
+         end
      | _, _ => UNone
-     end.
+     end
+  /\ Forall (fun e => match e with VGen _ f _ cx _ => cx = fctx cf f | _ => True end)
+            (snd (fst (unwrap1 cf o c1))).
 Proof.
-  intros G IN. unfold elab1, elab_step, unwrap1, unwrap_step. rewrite G. simpl.
-  unfold gcm_elab. destruct (exiting c) eqn:X; simpl; rewrite ?G; repeat split; auto.
-  - unfold gcm_unwrap; simpl. destruct (greg cf (code _)); auto. rewrite IN.
-    destruct (gframes _); auto. unfold gen_hook. destruct (greg cf (fcode cf n)); auto.
-  - unfold gcm_unwrap; simpl. destruct (greg cf (code _)); auto.
-    destruct (gframes _); auto. unfold gen_hook. destruct (greg cf (fcode cf n)); auto.
+  intros G IN W. unfold elab1, elab_step, unwrap1, unwrap_step. rewrite G. simpl.
+  unfold gcm_elab. rewrite W. destruct (exiting c) eqn:X; simpl; rewrite ?G; repeat split; auto.
+  all: unfold gcm_unwrap; simpl; rewrite ?IN; destruct (greg cf (code (mattrs cf (obj c)))); auto;
+    destruct (gframes (mattrs cf (obj c))) as [|f fr]; simpl; auto;
+    unfold gen_hook; simpl; destruct (greg cf (fcode cf f)); simpl; auto.
 Qed.
+
+(* with with_contexts=False in force the non-exiting path hands the hook a Frame without
+   contexts while the exiting path still analyses them: a hook answering from frame.contexts
+   then gives different verdicts (witness below, [ex_with]) *)
 
 (* ------------------------------------------------------------------ 3f. the ==() observation *)
 
 (* `inner_mgr == PRUNE` is an equality test: a manager object that compares equal to the
    empty tuple is taken for PRUNE instead of replacing the outer manager. *)
 Definition eq_cfg : cfg :=
-  mkcfg [(0, syn_attr true false); (1, syn_attr true true)] [] [(0, UTo 1)] [] [] 100 true.
+  mkcfg [(0, syn_attr true false); (1, syn_attr true true)] [] [(0, UTo 1)] [] [] [] [] 100 true.
 Definition fresh (m : nat) : ctx := mkctx m None [] false None false.
 
 Lemma eqprune_refuted :
@@ -716,7 +728,7 @@ Definition ex_chain : cfg :=
   {| mattrs := fun _ => syn_attr true false;
      elabt := fun m => [EAppDescr m; EAppChild m];
      unwrapt := fun m => if m <? 3 then UTo (S m) else UNone;
-     fcode := fun _ => 4999; greg := fun _ => None;
+     fcode := fun _ => 4999; fctx := fun _ => []; greg := fun _ => None; gctx0 := fun _ => false;
      guard := SrcFacts.context_guard; restores := SrcFacts.push_restores_in_finally |}.
 
 Example ex_chain_syn : syn_only ex_chain.
@@ -742,7 +754,7 @@ Proof. vm_compute. reflexivity. Qed.
 Definition ex_setobj : cfg :=
   mkcfg [(0, syn_attr true false); (1, syn_attr true false); (2, syn_attr true false)]
         [(0, [ESetChildren [7]; ESetObj 2]); (1, [EAppChild 5])]
-        [(0, URaise); (2, UTo 1); (1, UPrune)] [] []
+        [(0, URaise); (2, UTo 1); (1, UPrune)] [] [] [] []
         SrcFacts.context_guard SrcFacts.push_restores_in_finally.
 
 Example ex_setobj_syn : syn_only ex_setobj.
@@ -760,7 +772,7 @@ Definition ex_cycle (period : nat) : cfg :=
   {| mattrs := fun _ => syn_attr true false;
      elabt := fun m => [ESetDescr m];
      unwrapt := fun m => UTo (if S m <? period then S m else 0);
-     fcode := fun _ => 4999; greg := fun _ => None;
+     fcode := fun _ => 4999; fctx := fun _ => []; greg := fun _ => None; gctx0 := fun _ => false;
      guard := SrcFacts.context_guard; restores := SrcFacts.push_restores_in_finally |}.
 
 Example ex_cycle_endless p : endless (ex_cycle p).
@@ -781,7 +793,7 @@ Proof. vm_compute. auto. Qed.
    hook returns manager 1 (synthetic sink); both lookup paths *)
 Definition ex_gcm : cfg :=
   mkcfg [(0, gcm_attr 7 [0; 500] false); (1, syn_attr true false)]
-        [(1, [EAppDescr 1])] [(1, UNone)] [(0, 7)] [(7, UTo 1)]
+        [(1, [EAppDescr 1])] [(1, UNone)] [(0, 7)] [] [(7, UTo 1)] []
         SrcFacts.context_guard SrcFacts.push_restores_in_finally.
 
 Example ex_gcm_hyp : gcm (mattrs ex_gcm (obj (fresh 0))) = true /\ inner (fresh 0) = None.
@@ -790,11 +802,47 @@ Proof. split; reflexivity. Qed.
 Example ex_gcm_not_exiting :
   fst (fill ex_gcm None (fresh 0)) =
   (Done (mkctx 1 None [] false (Some [AGcmEnt 7; ATag 1]) false),
-   [VGen 7 0 false (Some (true, false)); VElab 1 (Some (true, false)); VUnwrap 1 (Some (true, false))]).
+   [VGen 7 0 false [] (Some (true, false)); VElab 1 (Some (true, false)); VUnwrap 1 (Some (true, false))]).
 Proof. vm_compute. reflexivity. Qed.
 
 Example ex_gcm_exiting :
   fst (fill ex_gcm None (mkctx 0 None [] false None true)) =
   (Done (mkctx 1 None [] false (Some [AGcmEnt 7; ATag 1]) true),
-   [VGen 7 0 true (Some (true, false)); VElab 1 (Some (true, false)); VUnwrap 1 (Some (true, false))]).
+   [VGen 7 0 true [] (Some (true, false)); VElab 1 (Some (true, false)); VUnwrap 1 (Some (true, false))]).
 Proof. vm_compute. reflexivity. Qed.
+
+(* a generator-based wrapper whose body is `with resource: yield` (resource = inert manager 5)
+   and whose hook returns frame.contexts[0].obj, falling back to None: replaced by the
+   resource on both paths when contexts are analysed ... *)
+Definition ex_with : cfg :=
+  mkcfg [(0, gcm_attr 7 [0] false); (5, syn_attr false false)] [] [] [(0, 7)] [(0, [5])] [(7, UNone)] [7]
+        SrcFacts.context_guard SrcFacts.push_restores_in_finally.
+
+Example ex_with_hyp : gcm (mattrs ex_with (obj (fresh 0))) = true /\ inner (fresh 0) = None
+                      /\ wc_of (opts_in None) = true.
+Proof. repeat split. Qed.
+
+Example ex_with_not_exiting :
+  fst (fill ex_with None (fresh 0)) =
+  (Done (mkctx 5 None [] false (Some [AGcmEnt 7]) false), [VGen 7 0 false [5] (Some (true, false))]).
+Proof. vm_compute. reflexivity. Qed.
+
+Example ex_with_exiting :
+  fst (fill ex_with None (mkctx 0 None [] false None true)) =
+  (Done (mkctx 5 None [] false (Some [AGcmEnt 7]) true), [VGen 7 0 true [5] (Some (true, false))]).
+Proof. vm_compute. reflexivity. Qed.
+
+(* ... but not inside extract(with_contexts=False): there only the exiting path sees them *)
+Lemma paths_differ_without_contexts :
+  exists cf c, gcm (mattrs cf (obj c)) = true /\ inner c = None /\
+    fst (fst (fill cf (Some (false, false)) c))
+    <> match fst (fst (fill cf (Some (false, false)) (mkctx (obj c) None [] false None true))) with
+       | Done c' => Done (mkctx (obj c') (inner c') (children c') (hidden c') (descr c') false)
+       | x => x
+       end
+    /\ (forall c', fst (fst (fill cf (Some (false, false)) c)) = Done c' -> obj c' = obj c).
+Proof.
+  exists ex_with, (fresh 0). repeat split; try reflexivity.
+  - vm_compute. discriminate.
+  - vm_compute. intros c' E. inversion E. reflexivity.
+Qed.
